@@ -31,7 +31,7 @@ def worker_init(tier):
 def BOUNDS(tier):
     q = tier == "quick"
     return dict(inputs="knotted members of M(N<=%d) and D(K<=%d); unknotted members of M(N<=5) once per configuration" % ((8, 3) if q else (10, 4)),
-                configurations=37, fault_sequences="all sequences of length <= %d over 6 behaviours + None on one object" % (2 if q else 3))
+                configurations=49, fault_sequences="all sequences of length <= %d over 6 behaviours + None on one object" % (2 if q else 3))
 
 
 def _knotted(gen, want=True):
@@ -70,6 +70,10 @@ def configurations():
             yield (kind, beh)
     # the bundled CBC stopped by an iteration limit of 0 (a real back-end, not a stand-in)
     yield ("arg", "cbc-maxit0")
+    # a solver that stops without an optimum and leaves a proper, arbitrary assignment behind (an incumbent that is not the first-come-first-served one)
+    for kind in ("arg", "highs", "default"):
+        for beh in ("not_solved", "infeasible", "undefined", "unbounded"):
+            yield (kind, beh + "-proper")
     # a solver that stops without an optimum and leaves every variable unassigned (value None, objective None) - what HiGHS_CMD does when it returns early
     for kind in ("arg", "highs", "default"):
         for beh in ("not_solved", "infeasible", "undefined"):
@@ -80,7 +84,7 @@ def execute(case, conf):
     """One execution; returns (result-or-exc, solver_calls)."""
     kind, beh = conf
     b = build(case)
-    solver = seams.FaultSolver([beh]) if (beh in seams.BEHAVIOURS or beh.startswith("claims-optimal")) else (seams.FaultSolver([beh.split("-")[0]], garbage=False) if beh.endswith("-unassigned") else None)
+    solver = seams.FaultSolver([beh]) if (beh in seams.BEHAVIOURS or beh.startswith("claims-optimal")) else (seams.FaultSolver([beh.split("-")[0]], garbage=False) if beh.endswith("-unassigned") else (seams.FaultSolver([beh.split("-")[0]], garbage="proper") if beh.endswith("-proper") else None))
     if beh == "cbc-maxit0":
         import pulp
 
@@ -156,7 +160,7 @@ def run_case(case):
     out.extend(pre)
     for conf in configurations():
         kind, beh = conf
-        eff = beh if beh in seams.BEHAVIOURS else ("raise" if beh == "absent-binary" else (beh.split("-")[0] if beh.endswith("-unassigned") else ("claims-optimal" if beh.startswith("claims-optimal") else ("real-cbc-stopped" if beh == "cbc-maxit0" else "none"))))
+        eff = beh if beh in seams.BEHAVIOURS else ("raise" if beh == "absent-binary" else (beh.split("-")[0] if beh.endswith(("-unassigned", "-proper")) else ("claims-optimal" if beh.startswith("claims-optimal") else ("real-cbc-stopped" if beh == "cbc-maxit0" else "none"))))
         if not knotted:
             eff_j = "ok" if eff in seams.BEHAVIOURS else eff  # solver is not needed: any behaviour must give the round-bracket answer
         b, r, calls = execute(case, conf)
